@@ -480,3 +480,328 @@ Proof.
   split; [rewrite B4; exact Eab|].
   split; [rewrite B5; reflexivity|rewrite B6; reflexivity].
 Qed.
+
+(* ---------------------------------------------------------------- the comparison of the property *)
+(* "compared after dot-segment normalization and treating an empty path under an authority as /" *)
+Definition canon10 (u : uri) : uri :=
+  let v := remove_dot_segments_absolute u in
+  if is_host_set v && match pathSegs v with [] => true | _ => false end then set_pathSegs [[]] v else v.
+Definition same_target (a b : uri) : Prop := components (canon10 a) = components (canon10 b).
+
+Lemma components_fields a b : scheme a = scheme b -> auth_fields a = auth_fields b ->
+  pathSegs a = pathSegs b -> absolutePath a = absolutePath b -> query a = query b -> fragment a = fragment b ->
+  components a = components b.
+Proof.
+  destruct a, b. unfold components, auth_fields. usimpl. intros H1 H2 H3 H4 H5 H6.
+  injection H2 as -> -> -> -> -> ->. subst. reflexivity.
+Qed.
+
+Lemma canon10_components a b : components a = components b -> components (canon10 a) = components (canon10 b).
+Proof.
+  destruct a, b. unfold components. usimpl. intros H. injection H as -> -> -> -> -> -> -> -> -> -> ->.
+  unfold canon10. rewrite !rds_nf. usimpl. unfold is_host_set. usimpl.
+  match goal with |- context [if ?c then _ else _] => destruct c end; reflexivity.
+Qed.
+
+Lemma same_target_components a b : components a = components b -> same_target a b.
+Proof. exact (canon10_components a b). Qed.
+
+Theorem roundtrip_walk_components src base : walk_ok src base = true ->
+  one_kind base = true -> auth_fields src = auth_fields base ->
+  let back := snd (add_base false (snd (remove_base false src base)) base) in
+  components back = components src /\ same_target back src.
+Proof.
+  intros Hw Hk Ha. cbv zeta.
+  destruct (roundtrip_walk src base Hw) as (_ & _ & B1 & B2 & B3 & B4 & B5 & B6).
+  assert (components (snd (add_base false (snd (remove_base false src base)) base)) = components src) as E.
+  { apply components_fields; try assumption. rewrite B2, Ha. apply auth_fields_copy. exact Hk. }
+  split; [exact E|exact (same_target_components _ _ E)].
+Qed.
+
+(* ---------------------------------------------------------------- 6. the cases without a walk *)
+Lemma rds_p_fixed h a s : forallb nodot s = true -> rds_p h a s = s.
+Proof. intros H. destruct s as [|x s]; [reflexivity|]. unfold rds_p. exact (rds_walk_fixed h a _ H). Qed.
+
+(* a reference that keeps its scheme resolves to itself when it is already clean *)
+Lemma add_base_absolute_ref rel base : scheme rel <> None -> scheme base <> None ->
+  forallb nodot (pathSegs rel) = true -> wf rel = true -> lone_empty_hostless rel = false ->
+  fst (add_base false rel base) = URI_SUCCESS
+  /\ components (snd (add_base false rel base)) = components (copy_authority rel rel).
+Proof.
+  intros Hr Hb Hd Hw Hl. unfold add_base, add_base_impl.
+  destruct (scheme base) as [sb|]; [|congruence]. cbv zeta.
+  destruct (scheme rel) as [sr|] eqn:Esr; [|congruence]. cbn [is_some andb negb fst snd].
+  split; [reflexivity|].
+  rewrite rds_nf, fixamb_nf, fixtrail_nf. autorewrite with uri_db. usimpl.
+  rewrite (rds_p_fixed _ _ _ Hd), (fixamb_wf rel Hw), (fixtrail_not_lone rel Hl).
+  destruct rel as [sc ui ht i4 i6 ifu po ps qu fr ab ow]. cbn [scheme] in Esr. subst sc. reflexivity.
+Qed.
+
+Lemma copy_authority_one_kind u : one_kind u = true -> copy_authority u u = u.
+Proof.
+  destruct u as [sc ui ht i4 i6 ifu po ps qu fr ab ow]. unfold one_kind, copy_authority. usimpl.
+  destruct i4, i6, ifu; intros H; try discriminate H; reflexivity.
+Qed.
+
+(* what the reference is when it is "the source unchanged" *)
+Lemma copied_is_source src : one_kind src = true ->
+  set_fragment (fragment src) (set_query (query src)
+     (copy_path (copy_authority (set_scheme (scheme src) empty_uri) src) src))
+  = set_owner false src.
+Proof.
+  destruct src as [sc ui ht i4 i6 ifu po ps qu fr ab ow]. unfold one_kind. usimpl.
+  destruct i4, i6, ifu; intros H; try discriminate H; reflexivity.
+Qed.
+
+(* A. schemes differ, or the scheme is kept (host-less source, base with a host): the reference is the
+   source, and resolves to it *)
+Theorem roundtrip_copy m src base : scheme src <> None -> scheme base <> None ->
+  range_eqb (scheme src) (scheme base) = false
+  \/ (equals_authority src base = false /\ is_host_set src = false /\ is_host_set base = true) ->
+  forallb nodot (pathSegs src) = true -> wf src = true -> lone_empty_hostless src = false ->
+  one_kind src = true ->
+  let r := snd (remove_base m src base) in
+  fst (add_base false r base) = URI_SUCCESS
+  /\ components (snd (add_base false r base)) = components src.
+Proof.
+  intros Hs Hb Hc Hd Hw Hl Hk. cbv zeta. rewrite (remove_base_nf m src base Hs Hb). cbn [snd].
+  assert (rb_body m src base = copy_path (copy_authority (set_scheme (scheme src) empty_uri) src) src) as E.
+  { unfold rb_body. destruct Hc as [Hc|(H1 & H2 & H3)].
+    - rewrite Hc. reflexivity.
+    - destruct (range_eqb (scheme src) (scheme base)); [|reflexivity]. cbn [negb].
+      rewrite H1, H2, H3. reflexivity. }
+  rewrite E, (copied_is_source src Hk).
+  destruct (add_base_absolute_ref (set_owner false src) base Hs Hb Hd Hw Hl) as [A1 A2].
+  split; [exact A1|]. rewrite A2. rewrite (copy_authority_one_kind (set_owner false src) Hk). reflexivity.
+Qed.
+
+(* B. same scheme, other authority, source with a host: the reference is the source without its scheme *)
+Lemma add_base_network_ref rel base : scheme rel = None -> is_host_set rel = true -> scheme base <> None ->
+  forallb nodot (pathSegs rel) = true ->
+  fst (add_base false rel base) = URI_SUCCESS
+  /\ components (snd (add_base false rel base)) = components (set_scheme (scheme base) (copy_authority rel rel)).
+Proof.
+  intros Hr Hh Hb Hd. unfold add_base, add_base_impl.
+  destruct (scheme base) as [sb|]; [|congruence]. cbv zeta.
+  rewrite Hr. cbn [is_some andb fst snd]. rewrite Hh.
+  split; [reflexivity|].
+  rewrite rds_nf, fixtrail_nf. autorewrite with uri_db. usimpl.
+  rewrite (rds_p_fixed _ _ _ Hd). rewrite Hh. cbn [fixtrail_p negb].
+  destruct rel as [sc ui ht i4 i6 ifu po ps qu fr ab ow]. reflexivity.
+Qed.
+
+Lemma copied_noscheme src : one_kind src = true ->
+  set_fragment (fragment src) (set_query (query src) (copy_path (copy_authority empty_uri src) src))
+  = set_owner false (set_scheme None src).
+Proof.
+  destruct src as [sc ui ht i4 i6 ifu po ps qu fr ab ow]. unfold one_kind. usimpl.
+  destruct i4, i6, ifu; intros H; try discriminate H; reflexivity.
+Qed.
+
+Lemma scheme_eq_of_range src base : wf src = true -> range_eqb (scheme src) (scheme base) = true ->
+  scheme src = scheme base.
+Proof.
+  intros Hw H. apply range_eqb_eq; [|exact H].
+  destruct (scheme src) as [ss|] eqn:Ess; [|reflexivity]. exact (wf_scheme src ss Hw Ess).
+Qed.
+
+Theorem roundtrip_other_authority m src base : scheme src <> None -> scheme base <> None ->
+  range_eqb (scheme src) (scheme base) = true -> equals_authority src base = false ->
+  is_host_set src = true ->
+  forallb nodot (pathSegs src) = true -> wf src = true -> one_kind src = true ->
+  let r := snd (remove_base m src base) in
+  fst (add_base false r base) = URI_SUCCESS
+  /\ components (snd (add_base false r base)) = components src.
+Proof.
+  intros Hs Hb He Ea Hh Hd Hw Hk. cbv zeta. rewrite (remove_base_nf m src base Hs Hb). cbn [snd].
+  unfold rb_body. rewrite He, Ea, Hh. cbn [negb andb]. rewrite (copied_noscheme src Hk).
+  destruct (add_base_network_ref (set_owner false (set_scheme None src)) base eq_refl Hh Hb Hd) as [A1 A2].
+  split; [exact A1|]. rewrite A2.
+  rewrite (copy_authority_one_kind (set_owner false (set_scheme None src)) Hk).
+  rewrite <- (scheme_eq_of_range src base Hw He).
+  destruct src as [sc ui ht i4 i6 ifu po ps qu fr ab ow]. reflexivity.
+Qed.
+
+(* C. domain-root mode *)
+Lemma add_base_abs_ref rel base : scheme rel = None -> is_host_set rel = false -> absolutePath rel = true ->
+  scheme base <> None ->
+  add_base false rel base
+  = (URI_SUCCESS,
+     set_fragment (fragment rel) (fix_empty_trail_segment (set_scheme (scheme base) (set_query (query rel)
+       (fix_ambiguity (remove_dot_segments_absolute (resolve_abs_flag
+          (copy_path (copy_authority empty_uri base) rel)))))))).
+Proof.
+  intros Hs Hh Ha Hb. unfold add_base, add_base_impl.
+  destruct (scheme base) as [sb|]; [|congruence]. cbv zeta.
+  rewrite Hs. cbn [is_some andb]. rewrite Hh, Ha.
+  destruct (pathSegs rel); reflexivity.
+Qed.
+
+Lemma back_fields_abs rel base : scheme rel = None -> is_host_set rel = false -> absolutePath rel = true ->
+  scheme base <> None ->
+  let back := snd (add_base false rel base) in
+  let hb := is_host_set base in
+  let segs' := if hb then match pathSegs rel with [] => [[]] | _ => pathSegs rel end else pathSegs rel in
+  scheme back = scheme base
+  /\ auth_fields back = auth_fields (copy_authority empty_uri base)
+  /\ pathSegs back = fixtrail_p hb (fixamb_p hb (negb hb) (rds_p hb (negb hb) segs'))
+  /\ absolutePath back = negb hb /\ query back = query rel /\ fragment back = fragment rel.
+Proof.
+  intros Hs Hh Ha Hb. rewrite (add_base_abs_ref rel base Hs Hh Ha Hb). cbn [snd]. cbv zeta.
+  rewrite resabs_nf. autorewrite with uri_db. usimpl. rewrite Ha, andb_true_r.
+  destruct (is_host_set base) eqn:Ehb.
+  - rewrite rds_nf, fixamb_nf, fixtrail_nf. autorewrite with uri_db. usimpl. rewrite Ehb. repeat split.
+  - rewrite rds_nf, fixamb_nf, fixtrail_nf. autorewrite with uri_db. usimpl. rewrite Ehb, Ha. repeat split.
+Qed.
+
+Theorem roundtrip_domain_root src base : scheme src <> None -> scheme base <> None ->
+  range_eqb (scheme src) (scheme base) = true -> equals_authority src base = true ->
+  is_host_set src = is_host_set base -> (is_host_set src = false -> absolutePath src = true) ->
+  forallb nodot (pathSegs src) = true -> wf src = true -> lone_empty_hostless src = false ->
+  let r := snd (remove_base true src base) in
+  let back := snd (add_base false r base) in
+  fst (add_base false r base) = URI_SUCCESS
+  /\ scheme back = scheme src
+  /\ auth_fields back = auth_fields (copy_authority empty_uri base)
+  /\ pathSegs back = (if is_host_set src then match pathSegs src with [] => [[]] | _ => pathSegs src end
+                      else pathSegs src)
+  /\ absolutePath back = absolutePath src
+  /\ query back = query src /\ fragment back = fragment src.
+Proof.
+  intros Hs Hb He Ea Hhost Hroot Hd Hw Hl. cbv zeta.
+  rewrite (remove_base_nf true src base Hs Hb). cbn [snd].
+  unfold rb_body. rewrite He, Ea. cbn [negb]. rewrite fixamb_nf. usimpl.
+  change (is_host_set (set_absolutePath true (copy_path empty_uri src))) with false.
+  set (P := fixamb_p false true (pathSegs src)).
+  set (r := set_fragment (fragment src) (set_query (query src) (set_pathSegs P (set_absolutePath true (copy_path empty_uri src))))).
+  assert (scheme r = None) as R1 by reflexivity.
+  assert (is_host_set r = false) as R2 by reflexivity.
+  assert (absolutePath r = true) as R3 by reflexivity.
+  split; [rewrite (add_base_abs_ref r base R1 R2 R3 Hb); reflexivity|].
+  destruct (back_fields_abs r base R1 R2 R3 Hb) as (B1 & B2 & B3 & B4 & B5 & B6).
+  split; [rewrite B1; symmetry; exact (scheme_eq_of_range src base Hw He)|].
+  split; [exact B2|].
+  change (pathSegs r) with P in B3. rewrite <- Hhost in B3, B4.
+  destruct (is_host_set src) eqn:Hh.
+  - (* with a host *)
+    pose proof (wf_host_abs src Hw Hh) as Hab.
+    split.
+    { rewrite B3. cbn [negb fixtrail_p]. rewrite fixamb_host. subst P.
+      destruct (pathSegs src) as [|x l] eqn:Ep; [reflexivity|].
+      destruct x as [|c x]; [destruct l as [|y l]|]; cbn [fixamb_p].
+      + apply rds_p_fixed. exact Hd.
+      + unfold rds_p. rewrite walk_false_cons. change (seg_dot [46]) with true. cbv iota.
+        exact (rds_walk_fixed true false _ Hd).
+      + destruct l; apply rds_p_fixed; exact Hd. }
+    split; [rewrite B4, Hab; reflexivity|]. split; [rewrite B5|rewrite B6]; reflexivity.
+  - (* host-less, rooted *)
+    pose proof (Hroot eq_refl) as Hab.
+    assert (fixamb_p false true (pathSegs src) = pathSegs src) as F1
+      by (pose proof (fixamb_wf src Hw) as F; rewrite Hh, Hab in F; exact F).
+    assert (fixtrail_p false (pathSegs src) = pathSegs src) as F2
+      by (pose proof (fixtrail_not_lone src Hl) as F; rewrite Hh in F; exact F).
+    split.
+    { rewrite B3. subst P. cbn [negb]. rewrite F1, (rds_p_fixed _ _ _ Hd), F1. exact F2. }
+    split; [rewrite B4, Hab; reflexivity|]. split; [rewrite B5|rewrite B6]; reflexivity.
+Qed.
+
+Lemma canon10_slash u : is_host_set u = true -> pathSegs u = [] ->
+  components (canon10 (set_pathSegs [[]] u)) = components (canon10 u).
+Proof.
+  intros Hh Hp. unfold canon10. rewrite !rds_nf. autorewrite with uri_db. usimpl. rewrite Hh, Hp.
+  cbn [rds_p rds_walk seg_dot seg_dotdot rev app andb]. reflexivity.
+Qed.
+
+Theorem roundtrip_domain_root_target src base : scheme src <> None -> scheme base <> None ->
+  range_eqb (scheme src) (scheme base) = true -> equals_authority src base = true ->
+  is_host_set src = is_host_set base -> (is_host_set src = false -> absolutePath src = true) ->
+  forallb nodot (pathSegs src) = true -> wf src = true -> lone_empty_hostless src = false ->
+  one_kind base = true -> auth_fields src = auth_fields base ->
+  same_target (snd (add_base false (snd (remove_base true src base)) base)) src.
+Proof.
+  intros Hs Hb He Ea Hhost Hroot Hd Hw Hl Hk Haf.
+  destruct (roundtrip_domain_root src base Hs Hb He Ea Hhost Hroot Hd Hw Hl) as (_ & B1 & B2 & B3 & B4 & B5 & B6).
+  set (back := snd (add_base false (snd (remove_base true src base)) base)) in *.
+  set (src' := if is_host_set src && match pathSegs src with [] => true | _ => false end
+               then set_pathSegs [[]] src else src).
+  assert (components back = components src') as E.
+  { apply components_fields.
+    - rewrite B1. subst src'. destruct (is_host_set src && _); reflexivity.
+    - rewrite B2, (auth_fields_copy _ _ Hk), <- Haf. subst src'. destruct (is_host_set src && _); reflexivity.
+    - rewrite B3. subst src'. destruct (is_host_set src); [|reflexivity].
+      destruct (pathSegs src) eqn:Ep; [reflexivity|]. cbn [andb]. symmetry. exact Ep.
+    - rewrite B4. subst src'. destruct (is_host_set src && _); reflexivity.
+    - rewrite B5. subst src'. destruct (is_host_set src && _); reflexivity.
+    - rewrite B6. subst src'. destruct (is_host_set src && _); reflexivity. }
+  unfold same_target. rewrite (canon10_components _ _ E). subst src'.
+  destruct (is_host_set src) eqn:Hh; [|reflexivity].
+  destruct (pathSegs src) eqn:Ep; [|reflexivity]. cbn [andb].
+  apply canon10_slash; assumption.
+Qed.
+
+(* ---------------------------------------------------------------- 7. the unrestricted round trip is false *)
+(* S and B parse, are absolute, well formed and free of dot segments; creating the reference and resolving
+   it both succeed; the result is not S, even after dot-segment normalization and with "" = "/" under an
+   authority *)
+Definition round_trip_fails (m : bool) (S B : string) : Prop :=
+  let s := uri_of S in
+  let b := uri_of B in
+  let r := snd (remove_base m s b) in
+  to_text s = txt S /\ to_text b = txt B
+  /\ scheme s <> None /\ scheme b <> None /\ wf s = true /\ wf b = true
+  /\ forallb nodot (pathSegs s) = true
+  /\ fst (remove_base m s b) = URI_SUCCESS /\ fst (add_base false r b) = URI_SUCCESS
+  /\ ~ same_target (snd (add_base false r b)) s.
+
+Ltac fails_by_computation :=
+  unfold round_trip_fails; cbv zeta;
+  repeat (split; [first [vm_compute; reflexivity | vm_compute; discriminate]|]);
+  unfold same_target; let E := fresh "E" in intros E; vm_compute in E; discriminate E.
+
+Lemma fails_D8a : round_trip_fails false "s://h/a/b" "s://h/a".   Proof. fails_by_computation. Qed.
+Lemma fails_D8b : round_trip_fails false "s://h/a" "s://h/a/b/c". Proof. fails_by_computation. Qed.
+Lemma fails_D8c : round_trip_fails false "s://h/a" "s://h/a?q".   Proof. fails_by_computation. Qed.
+Lemma fails_D8d : round_trip_fails false "s:/a" "s:b".            Proof. fails_by_computation. Qed.
+Lemma fails_D8f : round_trip_fails true "s:a" "s:b".              Proof. fails_by_computation. Qed.
+(* the base has a dot segment below the common prefix: "../b" resolves to s://h/b *)
+Lemma fails_dotted_base : round_trip_fails false "s://h/a/b" "s://h/a/./x". Proof. fails_by_computation. Qed.
+
+Theorem roundtrip_refuted :
+  round_trip_fails false "s://h/a/b" "s://h/a"
+  /\ round_trip_fails false "s://h/a" "s://h/a/b/c"
+  /\ round_trip_fails false "s://h/a" "s://h/a?q"
+  /\ round_trip_fails false "s:/a" "s:b"
+  /\ round_trip_fails true "s:a" "s:b".
+Proof. exact (conj fails_D8a (conj fails_D8b (conj fails_D8c (conj fails_D8d fails_D8f)))). Qed.
+
+Theorem roundtrip_refuted_exists : exists m src base,
+  scheme src <> None /\ scheme base <> None /\ wf src = true /\ wf base = true
+  /\ fst (add_base false (snd (remove_base m src base)) base) = URI_SUCCESS
+  /\ ~ same_target (snd (add_base false (snd (remove_base m src base)) base)) src.
+Proof.
+  exists false, (uri_of "s://h/a/b"), (uri_of "s://h/a").
+  destruct fails_D8a as (_ & _ & H1 & H2 & H3 & H4 & _ & _ & H5 & H6). repeat split; assumption.
+Qed.
+
+(* what the five resolve back to *)
+Definition back_text (m : bool) (S B : string) : text :=
+  to_text (snd (add_base false (snd (remove_base m (uri_of S) (uri_of B))) (uri_of B))).
+Definition ref_text (m : bool) (S B : string) : text := to_text (snd (remove_base m (uri_of S) (uri_of B))).
+
+Lemma refuted_texts :
+  back_text false "s://h/a/b" "s://h/a" = txt "s://h/b"
+  /\ back_text false "s://h/a" "s://h/a/b/c" = txt "s://h/a/"
+  /\ back_text false "s://h/a" "s://h/a?q" = txt "s://h/a?q"
+  /\ back_text false "s:/a" "s:b" = txt "s:a"
+  /\ back_text true "s:a" "s:b" = txt "s:/a"
+  /\ back_text false "s://h/a/b" "s://h/a/./x" = txt "s://h/b".
+Proof. vm_compute. repeat split. Qed.
+
+(* the classes of Proofs/Findings10.v under which the run-time check files them *)
+Lemma witness_classes :
+  c10_class false (uri_of "s://h/a/b") (uri_of "s://h/a") = 7
+  /\ c10_class false (uri_of "s://h/a") (uri_of "s://h/a/b/c") = 6
+  /\ c10_class false (uri_of "s://h/a") (uri_of "s://h/a?q") = 5
+  /\ c10_class false (uri_of "s:/a") (uri_of "s:b") = 4
+  /\ c10_class true (uri_of "s:a") (uri_of "s:b") = 3.
+Proof. vm_compute. repeat split. Qed.
